@@ -3,5 +3,11 @@
 cd /verif; P=${1:-4}; shift
 ids=${@:-$(ls -d harmless/C??-? | xargs -n1 basename)}
 printf '%s\n' $ids | xargs -P $P -I{} sh -c 'r=$(timeout 3000 python3 tools/harmless.py harmless/{} 2>&1 | grep -E "\"silent\"|\"VIOLATION" | tr -d "\n" | cut -c1-200); echo "{}: $r"' | sort > /tmp/harmless_results.txt
-cp /tmp/harmless_results.txt harmless/RESULTS.txt
-echo "silent: $(grep -c '"silent": true' harmless/RESULTS.txt) alarms: $(grep -c '"silent": false' harmless/RESULTS.txt)"
+python3 - <<PY
+import json,glob
+rows=[]
+for f in sorted(glob.glob("/verif/harmless/*/result.json")):
+  r=json.load(open(f)); rows.append(f"{f.split(chr(47))[3]}: silent={r['silent']} exit={r['exit']} base={r.get('base')}")
+open("/verif/harmless/RESULTS.txt","w").write(chr(10).join(rows)+chr(10))
+PY
+echo "silent: $(grep -c "silent=True" harmless/RESULTS.txt) alarms: $(grep -c "silent=False" harmless/RESULTS.txt)"
